@@ -216,7 +216,7 @@ pub fn check(s: &'static dyn Proto, c: &Case, st: &mut Stats, _k: &KnownFindings
 }
 
 pub const BUDGET: Budget = Budget {
-    quick: (300, 150, 60),
+    quick: (1000, 500, 200),
     thorough: (6000, 3000, 1200),
     shrink: 200,
 };
